@@ -123,3 +123,145 @@ Example C16_nonvacuous :
   constants ex_hier = [s2p "subject"] /\
   sig_required true ex_hier (s2p "val") = true /\ sig_required true ex_hier (s2p "opt") = false.
 Proof. vm_compute. repeat split; reflexivity. Qed.
+
+(* ======================================================================================================
+   the tie to the source of the stub renderers (generated layer), appended from the contributor's file *)
+(* Property C16 — the tie of the hand-written model of the stub generator (Stubs/StubModel.v: type_info,
+   ordered_args, stub_init, stub_shallow_clone, stub_from_other_class, stub_from_trusted_data), on which the C16
+   theorems are proved, to the CURRENT text of typedpy/stubs/type_info_getter.py (get_all_type_info),
+   type_helpers.py (_get_ordered_args) and methods_info_getter.py (get_init, get_additional_structure_methods).
+   Gen/StubsSrc.v is the translation of these functions, re-generated from the source on every run
+   (harness/genmods/py2v_stubs.py); these theorems (proved in Stubs/StubsSrcProofs.v) say that, for EVERY class
+   description, it computes texts whose reading is the hand model.  How a description is seen as Python-level
+   arguments, and how a text is read back, is Stubs/StubsSrcView.v.
+   This block is meant to be appended to Props/C16.v as it is. *)
+From Coq Require Import List Bool NArith String.
+Import ListNotations.
+From TP Require Import Base.PyVal Base.PyOps Base.PyOps2 Base.PyObj Base.PyOpsDerive Base.PyOpsStubs
+     Stubs.Signature Stubs.SignatureProofs Stubs.StubModel Stubs.StubProofs
+     Gen.StubsSrc Stubs.StubsSrcView Stubs.StubsSrcProofs.
+
+Section C16_src.
+  Variable apd_run : bool.                                  (* the default when the classes were defined *)
+  Variable h0 : heap.                                       (* the rest of the heap: arbitrary *)
+  Variable fobj : fdecl -> pyval.                           (* the Field object of a declaration: arbitrary *)
+  Variable cobj : pystr -> pyval.                           (* the values of cls._constants: arbitrary *)
+  Variable ext : pyval -> pyval -> pyval -> res pyval.      (* get_type_info(field, locals_attrs, additional_classes) *)
+  Variables la ac : pyval.                                  (* locals_attrs, additional_classes: arbitrary *)
+  Notation hp := (cls_heap apd_run h0 fobj cobj).
+  Notation ext_ok := (ext_ok fobj ext la ac).
+  Notation type_info_text := (type_info_text apd_run fobj ext la ac).
+  Notation stub_kws := (stub_kws apd_run fobj ext la ac).
+
+  (* get_all_type_info, as the source is written now: one entry name -> text per non-constant field, in
+     get_all_fields_by_name order, wrapped in "Optional[...] = None" iff not in _required and not already
+     starting with "Optional[" ... *)
+  Theorem C16_src_type_info : forall C : hier,
+      ext_ok C = true ->
+      get_all_type_info ext (hp C) (ref o_cls) la ac = Ok (sdict (type_info_text C)).
+  Proof. exact (get_all_type_info_src_eq apd_run h0 fobj cobj ext la ac). Qed.
+
+  (* ... and what the model keeps of it (name, text ends with "= None") is the model's type_info *)
+  Theorem C16_src_type_info_abs : forall C : hier,
+      ext_ok C = true -> map abs_entry (type_info_text C) = type_info apd_run C.
+  Proof. exact (type_info_text_abs apd_run fobj ext la ac). Qed.
+
+  (* _get_ordered_args on any dict of texts (distinct keys): the entries without "= None" first *)
+  Theorem C16_src_ordered_args : forall (h : heap) (l : list (pystr * pystr)),
+      nodup_names (map fst l) = true ->
+      get_ordered_args h (sdict l) = Ok (sdict (ordered_text l)).
+  Proof. exact get_ordered_args_src_eq. Qed.
+  Theorem C16_src_ordered_args_abs : forall l, map abs_entry (ordered_text l) = ordered_args (map abs_entry l).
+  Proof. exact ordered_text_abs. Qed.
+
+  (* get_init on any dict of texts: the def with "self", one "name: text" per entry, "**kw" iff
+     getattr(cls, "_additional_properties", default) *)
+  Theorem C16_src_get_init : forall (C : hier) (l : list (pystr * pystr)) (apd_stub : bool),
+      get_init (hp C) (ref o_cls) (sdict l) (PBool apd_stub) = Ok (PStr (init_text l (stub_kw apd_stub C))).
+  Proof. exact (get_init_src_eq apd_run h0 fobj cobj). Qed.
+
+  (* get_additional_structure_methods on any dict of texts (distinct keys): the three defs, every keyword
+     completed with " = None" *)
+  Theorem C16_src_additional_methods : forall (C : hier) (l : list (pystr * pystr)) (apd_stub : bool),
+      nodup_names (map fst l) = true ->
+      get_additional_structure_methods (hp C) (ref o_cls) (sdict l) (PBool apd_stub)
+      = Ok (PStr (methods_text (none_text l) (stub_kw apd_stub C))).
+  Proof. exact (get_additional_structure_methods_src_eq apd_run h0 fobj cobj). Qed.
+  Theorem C16_src_with_none_abs : forall l, map abs_entry (none_text l) = with_none (map abs_entry l).
+  Proof. exact none_text_abs. Qed.
+
+  (* the chain get_stubs_of_structures runs for __init__: the text is the rendering of a def whose reading is
+     the model's stub_init (fixed parameters, keywords with their has-a-default, ** parameter) *)
+  Theorem C16_src_stub_init : forall (apd_stub : bool) (C : hier),
+      ext_ok C = true ->
+      (ti <- get_all_type_info ext (hp C) (ref o_cls) la ac ;;
+       oa <- get_ordered_args (hp C) ti ;;
+       get_init (hp C) (ref o_cls) oa (PBool apd_stub))
+      = Ok (PStr (def_render init_head self_fixed (stub_kws C) (m_kw (stub_init apd_run apd_stub C))))
+      /\ abs_def self_fixed (stub_kws C) (m_kw (stub_init apd_run apd_stub C)) = stub_init apd_run apd_stub C.
+  Proof. exact (stub_init_src_eq apd_run h0 fobj cobj ext la ac). Qed.
+
+  (* ... and for shallow_clone_with_overrides / from_other_class / from_trusted_data *)
+  Theorem C16_src_stub_methods : forall (apd_stub : bool) (C : hier),
+      ext_ok C = true ->
+      let kws := none_text (stub_kws C) in
+      let kw := stub_kw apd_stub C in
+      (ti <- get_all_type_info ext (hp C) (ref o_cls) la ac ;;
+       oa <- get_ordered_args (hp C) ti ;;
+       get_additional_structure_methods (hp C) (ref o_cls) oa (PBool apd_stub))
+      = Ok (PStr (join_strs nl [def_render clone_head self_fixed kws kw;
+                                def_render other_head other_fixed kws kw;
+                                def_render trusted_head trusted_fixed kws kw]))
+      /\ abs_def self_fixed kws kw = stub_shallow_clone apd_run apd_stub C
+      /\ abs_def other_fixed kws kw = stub_from_other_class apd_run apd_stub C
+      /\ abs_def trusted_fixed kws kw = stub_from_trusted_data apd_run apd_stub C.
+  Proof. exact (stub_methods_src_eq apd_run h0 fobj cobj ext la ac). Qed.
+
+  (* consequences for the texts the source renders, through the model's theorems: the keyword names of the
+     rendered __init__ are the run-time parameters (no constant, no duplicate), and no keyword without default
+     follows one with default *)
+  Theorem C16_src_init_keywords : forall C : hier,
+      ext_ok C = true ->
+      map fst (stub_kws C) = stub_init_names apd_run apd_run C /\
+      NoDup (map fst (stub_kws C)) /\
+      (forall n, In n (map fst (stub_kws C)) <-> In n (sig_names apd_run C) /\ ~ In n (constants C)) /\
+      order_wf false (map abs_entry (stub_kws C)) = true.
+  Proof.
+    intros C Hok.
+    assert (E : map fst (stub_kws C) = stub_init_names apd_run apd_run C).
+    { unfold stub_init_names, stub_init. cbn [m_kwparams].
+      rewrite <- (stub_kws_abs apd_run fobj ext la ac C Hok), map_map. reflexivity. }
+    split; [exact E|]. rewrite E. destruct (params_agree apd_run C) as [Hnd Hn].
+    split; [exact Hnd|]. split; [exact Hn|].
+    rewrite (stub_kws_abs apd_run fobj ext la ac C Hok). exact (init_order_wf apd_run apd_run C).
+  Qed.
+
+  (* outside the model's domain (every Structure class has _required): with _required absent, every field is
+     dropped -- `field_name not in required` is evaluated before `required is not None`, the TypeError is
+     swallowed by the `except Exception` around it *)
+  Theorem C16_src_no_required : forall C : hier,
+      ext_total fobj ext la ac C = true ->
+      get_all_type_info ext (cls_heap_no_required apd_run h0 fobj cobj C) (ref o_cls) la ac = Ok (PDict []).
+  Proof. exact (get_all_type_info_no_required apd_run h0 fobj cobj ext la ac). Qed.
+End C16_src.
+
+Print Assumptions C16_src_type_info.
+Print Assumptions C16_src_type_info_abs.
+Print Assumptions C16_src_ordered_args.
+Print Assumptions C16_src_ordered_args_abs.
+Print Assumptions C16_src_get_init.
+Print Assumptions C16_src_additional_methods.
+Print Assumptions C16_src_with_none_abs.
+Print Assumptions C16_src_stub_init.
+Print Assumptions C16_src_stub_methods.
+Print Assumptions C16_src_init_keywords.
+Print Assumptions C16_src_no_required.
+
+(* non-vacuity: the side conditions hold of the three-level class of [ex_hier] above with an oracle that reads
+   the text off the Field object; the texts are the library's own output for that class *)
+Example C16_src_nonvacuous :
+  ext_ok ex_fobj ex_ext PNone PNone ex_src_hier = true /\
+  nodup_names (map fst (type_info_text true ex_fobj ex_ext PNone PNone ex_src_hier)) = true /\
+  m_kwparams (stub_init true true ex_src_hier)
+  = [(s2p "name", false); (s2p "val", false); (s2p "i", true); (s2p "opt", true)].
+Proof. vm_compute. repeat split; reflexivity. Qed.
